@@ -58,8 +58,8 @@ def fmt_i(n: int, width: int = W) -> str:
 def obj_text(x: float) -> str:
     """The OBJ column: 17 significant digits in plain decimal notation ("regular decimal
     format", docs/NONMEM.rst); exact zero is printed with 16 decimals; magnitudes below 0.1
-    or above 1e15 are printed in scientific notation with a three digit exponent
-    (observed: -1.235192873974533E-002)."""
+    or above 1e15 are printed in scientific notation with 17 digits and a three digit
+    exponent (observed: -8.6311579442254982E-002)."""
     if x != x:
         return 'NaN'
     if x == 0:
@@ -74,12 +74,18 @@ def obj_text(x: float) -> str:
         if kk != k:
             s = '%.*f' % (17 - kk, a)
         return ('-' if x < 0 else '') + s
-    m, e = ('%.15E' % a).split('E')
+    m, e = ('%.16E' % a).split('E')
     return ('-' if x < 0 else '') + m + 'E' + e[0] + '%03d' % int(e[1:])
 
 
 def fmt_obj(x: float, width: int = OBJW) -> str:
-    return '%*s' % (width, obj_text(x))
+    """22 characters; values printed in scientific notation get a 27 character field
+    (observed in tests/testdata/nonmem/modelfit_results/saem/pheno_saem.phi), so the field
+    never touches its left neighbour."""
+    t = obj_text(x)
+    if len(t) > width - 2:
+        width = 27
+    return '%*s' % (width, t)
 
 
 def fmt_name(name: str, width: int = W) -> str:
@@ -128,9 +134,9 @@ def param_labels(ntheta, nomega, nsigma):
     )
 
 
-def phi_names(neta, prefix='ETA'):
+def phi_names(neta, prefix='ETA', objname='OBJ'):
     c = 'ETC' if prefix == 'ETA' else 'PHC'
-    return ['SUBJECT_NO', 'ID'] + ['%s(%d)' % (prefix, i + 1) for i in range(neta)] + ['%s(%d,%d)' % ((c,) + ij) for ij in tri(neta)] + ['OBJ']
+    return ['SUBJECT_NO', 'ID'] + ['%s(%d)' % (prefix, i + 1) for i in range(neta)] + ['%s(%d,%d)' % ((c,) + ij) for ij in tri(neta)] + [objname]
 
 
 # ------------------------------------------------------------------------------------------
@@ -147,14 +153,14 @@ def ext_table(title, labels, rows, objname='OBJ'):
     return dict(title=title, names=['ITERATION'] + list(labels) + [objname], rows=out)
 
 
-def phi_table(title, neta, rows, prefix='ETA'):
+def phi_table(title, neta, rows, prefix='ETA', objname='OBJ'):
     """rows: list of (subject_no, id, etas, etcs(lower triangle row-wise), obj)"""
     out = []
     for sno, ident, etas, etcs, obj in rows:
         if len(etas) != neta or len(etcs) != neta * (neta + 1) // 2:
             raise ValueError('phi row length')
         out.append([fmt_i(sno), fmt_i(ident)] + [fmt_e(v) for v in etas] + [fmt_e(v) for v in etcs] + [fmt_obj(obj)])
-    return dict(title=title, names=phi_names(neta, prefix), rows=out)
+    return dict(title=title, names=phi_names(neta, prefix, objname), rows=out)
 
 
 def matrix_table(title, labels, matrix):
@@ -282,7 +288,7 @@ def regenerate(text, kind):
                 (int(r[0]), int(r[1]), [float(x) for x in r[2 : 2 + neta]], [float(x) for x in r[2 + neta : -1]], float(r[-1]))
                 for r in t['rows']
             ]
-            tab = phi_table(title, neta, rows, prefix=prefix)
+            tab = phi_table(title, neta, rows, prefix=prefix, objname=t['names'][-1])
             if tab['names'] != t['names']:
                 raise ValueError('phi names')
             out.append(tab)
